@@ -2,15 +2,21 @@ package main
 
 import (
 	"encoding/json"
+	"flag"
 	"fmt"
 	"os"
+	"os/exec"
+	"path/filepath"
+	"time"
 
+	"verif.local/sim/engine"
 	"verif.local/sim/simbuild"
+	"verif.local/sim/world"
 )
 
 func main() {
 	if len(os.Args) < 2 {
-		fmt.Fprintln(os.Stderr, "usage: verifsim <build|...>")
+		fmt.Fprintln(os.Stderr, "usage: verifsim <build|trace|...>")
 		os.Exit(2)
 	}
 	switch os.Args[1] {
@@ -22,5 +28,61 @@ func main() {
 		}
 		b, _ := json.MarshalIndent(res, "", " ")
 		fmt.Println(string(b))
+	case "trace":
+		cmdTrace(os.Args[2:])
+	default:
+		fmt.Fprintln(os.Stderr, "unknown command")
+		os.Exit(2)
 	}
+}
+
+func cmdTrace(args []string) {
+	fs := flag.NewFlagSet("trace", flag.ExitOnError)
+	prog := fs.String("prog", "p1", "corpus program")
+	p := fs.Int("p", 1, "-p for go build")
+	verbose := fs.Bool("v", false, "print every step")
+	fs.Parse(args)
+	res, err := simbuild.Build("/repo", os.Stderr)
+	if err != nil {
+		fmt.Fprintln(os.Stderr, err)
+		os.Exit(2)
+	}
+	cfg := world.Config{Name: "default"}
+	t0 := time.Now()
+	tmpl, err := world.EnsureTemplate(res.Bin, res.Key, []world.Config{cfg})
+	if err != nil {
+		fmt.Fprintln(os.Stderr, err)
+		os.Exit(2)
+	}
+	fmt.Println("template", tmpl.Dir, len(tmpl.Files), time.Since(t0))
+	w, err := world.New(res.Bin, "trace")
+	if err != nil {
+		panic(err)
+	}
+	defer w.Close()
+	t0 = time.Now()
+	if err := w.Load(tmpl); err != nil {
+		panic(err)
+	}
+	fmt.Println("load", time.Since(t0))
+	src, err := w.CopyCorpus(*prog, *prog)
+	if err != nil {
+		panic(err)
+	}
+	out := filepath.Join(w.Out, "bin")
+	c := w.Client("A", src, cfg, "build", fmt.Sprintf("-p=%d", *p), "-o", out, ".")
+	s := &engine.Sim{GarbleBin: res.Bin, Clients: []*engine.Client{c}, Policy: engine.Canonical{}, Serial: *p == 1, RunDir: w.Root, Timeout: 5 * time.Minute}
+	t0 = time.Now()
+	err = s.Run()
+	fmt.Println("run", time.Since(t0), "err", err, "exit", c.ExitCode, "deadlock", s.Deadlock)
+	fmt.Printf("stats %+v\n", s.Stats)
+	if *verbose {
+		for _, st := range s.Steps {
+			fmt.Printf("%4d %-50s %2d %-12s %s %s\n", st.N, st.Proc, st.Seq, st.Op, st.Site, st.Path)
+		}
+	}
+	fmt.Println("stderr:", c.Stderr.String())
+	o, err := exec.Command(out).CombinedOutput()
+	fmt.Printf("binary: %v\n%s", err, o)
+	fmt.Println("sha", world.HashFile(out))
 }
